@@ -6,11 +6,12 @@ import (
 	"time"
 
 	"verif/harness/out"
+	"verif/harness/rawclient"
 	rc "verif/harness/refcodec"
 	"verif/harness/spec"
 )
 
-var c19Patterns = []string{"silent", "traffic-then-silent", "ping", "publish-only", "trickle", "silent-mid-packet", "silent-after-header-byte", "uneven", "large-then-ping", "silent-receiving", "silent-successor"}
+var c19Patterns = []string{"silent", "traffic-then-silent", "ping", "publish-only", "trickle", "silent-mid-packet", "silent-after-header-byte", "uneven", "large-then-ping", "silent-receiving", "silent-successor", "silent-outbound-full"}
 var c19Fractions = []float64{0.25, 0.5, 0.9, 0.99}
 
 func c19Run(t *testing.T, K int, pattern string, frac float64, idx int) {
@@ -29,7 +30,11 @@ func c19Run(t *testing.T, K int, pattern string, frac float64, idx int) {
 			return
 		}
 		willUID := uint64(4242)
-		c, ack := w.connectB("subject", connectOpts{Clean: pattern != "silent-successor", KeepAlive: uint16(K),
+		var policy rawclient.AckPolicy
+		if pattern == "silent-outbound-full" {
+			policy = rawclient.AckNone
+		}
+		c, ack := w.connectB("subject", connectOpts{Clean: pattern != "silent-successor", KeepAlive: uint16(K), Policy: policy,
 			Will: &rc.Packet{Topic: []byte("will/ka"), QoS: 1, Payload: spec.MakePayload(willUID, 0, 40)}})
 		if ack == nil || ack.ReturnCode != 0 {
 			fail("c19:connect", "no CONNACK for the subject")
@@ -115,7 +120,38 @@ func c19Run(t *testing.T, K int, pattern string, frac float64, idx int) {
 			settle()
 			lastByte = time.Now()
 		}
-		if got := countType(c.fresh(), rc.PINGRESP); got != pings {
+		// "silent-outbound-full": the client has stopped reading and has sent requests until the answers
+		// filled its connection's outgoing ring and the connection's processor is parked waiting for
+		// room (decided on the handled-packet events); then it falls silent. Nothing is pending on the
+		// wire towards the broker. It must be dropped on time like any silent client.
+		gone := func() bool {
+			return c.Closed() || (w.sink != nil && w.sink.count("stop.done", "subject") > 0)
+		}
+		if pattern == "silent-outbound-full" {
+			if w.sink == nil {
+				return
+			}
+			c.PauseReading()
+			cl.add(func() { c.ResumeReading(); c.Close() })
+			sent, stalled := 0, false
+			for round := 0; round < 200 && !stalled; round++ {
+				var burst []byte
+				for i := 0; i < 64; i++ {
+					sent++
+					burst = append(burst, rc.Encode(&rc.Packet{Type: rc.PUBLISH, Topic: []byte("ka/data"), QoS: 1, ID: uint16(sent), Payload: []byte("p")})...)
+				}
+				c.Send(burst)
+				settle()
+				stalled = w.sink.countArg("proc.handled", int(rc.PUBLISH)) < sent
+			}
+			lastByte = time.Now()
+			if !stalled {
+				out.Inconclusive("c19: the subject's processor did not stall on its own outgoing ring", params)
+				return
+			}
+			out.Count("c19.outbound_full_runs", 1)
+		}
+		if got := countType(c.fresh(), rc.PINGRESP); got != pings && pattern != "silent-outbound-full" {
 			fail("c19:pingresp", fmt.Sprintf("%d PINGREQ sent, %d PINGRESP received", pings, got))
 			return
 		}
@@ -159,7 +195,7 @@ func c19Run(t *testing.T, K int, pattern string, frac float64, idx int) {
 		var droppedAfter time.Duration = -1
 		fed := 0
 		for el := time.Duration(0); el <= 3*kd; el += step {
-			if c.Closed() {
+			if gone() {
 				droppedAfter = time.Since(lastByte)
 				break
 			}
@@ -194,7 +230,7 @@ func c19Run(t *testing.T, K int, pattern string, frac float64, idx int) {
 		if feeder != nil {
 			out.Count("c19.fed_while_silent", int64(fed))
 		}
-		if c.Closed() && droppedAfter < 0 {
+		if gone() && droppedAfter < 0 {
 			droppedAfter = time.Since(lastByte)
 		}
 		switch {
@@ -248,7 +284,7 @@ func TestC19(t *testing.T) {
 	for _, K := range []int{1, 2, 3, 5, 10, 60} {
 		for _, p := range c19Patterns {
 			fr := c19Fractions
-			if p == "silent" || p == "silent-mid-packet" || p == "silent-after-header-byte" {
+			if p == "silent" || p == "silent-mid-packet" || p == "silent-after-header-byte" || p == "silent-outbound-full" {
 				fr = []float64{0}
 			}
 			if p == "trickle" {
